@@ -5,7 +5,7 @@
    chi2 D c = sum_i w_i (row_i . c - y_i)^2 with row_i the design row of x_i, i.e. sum invvar*(spline(x)-y)^2. *)
 From Coq Require Import QArith List Bool Arith.
 Import ListNotations.
-From PV Require Import Lib.WLS BSpline.Eval BSpline.Fit BSpline.CoxDeBoor BSpline.FitProofs BSpline.BandProofs C09.Model C09.Proofs.
+From PV Require Import Lib.WLS BSpline.Eval BSpline.Fit BSpline.CoxDeBoor BSpline.FitProofs BSpline.BandProofs Generated.BSpline BSpline.GenBridge C09.Model C09.Proofs.
 Open Scope Q_scope.
 
 (* the fit's coefficients minimise the weighted chi-square over ALL coefficient vectors *)
@@ -129,6 +129,68 @@ Theorem C09_forward_substitution_solves : forall (n : nat) (L : nat -> nat -> Q)
   forall i, (i < n)%nat -> sumf (fun c => L i c * y c) n == b i.
 Proof. exact forward_substitution_solves. Qed.
 Print Assumptions C09_forward_substitution_solves.
+
+(* ---- the reference models are built from exactly the arithmetic translate/c08.py extracts from bspline.py
+   (fit, maskpoints, cholesky_band) on every run *)
+Theorem C09_generated_fit : forall nn k bw kk i itop nfull npoly lo hi sumw nf,
+  bs_fit_too_few nn k = (nn <? k)%nat /\
+  (bs_fit_block_len bw kk = (bw - kk)%nat /\ bs_fit_bi bw kk i = (bw * kk + (kk + i))%nat /\
+   bs_fit_bo bw kk i = (bw * kk + i)%nat) /\
+  ((itop <= nfull)%nat -> (1 <= bw)%nat ->
+   bs_fit_beta_start itop = itop /\
+   (bs_fit_beta_stop (bs_fit_ibottom itop nfull bw) - bs_fit_beta_start itop = bw)%nat /\
+   bs_fit_alpha_offset itop bw = (itop * bw)%nat) /\
+  (bs_fit_nloop nn k = (nn - k + 1)%nat /\ bs_fit_itop kk npoly = (kk * npoly)%nat) /\
+  bs_fit_ict_nonempty (bs_fit_ict hi lo) = (lo <=? hi)%Z /\
+  bs_fit_mininf sumw nf == (1 # 10000000000) * sumw / nf.
+Proof.
+  exact (fun nn k bw kk i itop nfull npoly lo hi sumw nf =>
+    conj (gen_fit_too_few nn k) (conj (gen_fit_bibo bw kk i) (conj (gen_fit_beta_slice itop nfull bw)
+    (conj (gen_fit_loops nn k npoly kk) (conj (gen_fit_ict lo hi) (gen_fit_mininf sumw nf)))))).
+Qed.
+Print Assumptions C09_generated_fit.
+
+Theorem C09_generated_maskpoints : forall nbkpt k err h s lo n,
+  maskpoints_model nbkpt k err =
+    (if bs_mp_give_up nbkpt k then ((-2)%Z, [])
+     else
+       let n := bs_mp_n nbkpt k in
+       if existsb (fun h => bs_mp_beyond h n) err then ((-2)%Z, [])
+       else
+         let lo := ((k + 1) / 2)%nat in
+         let hi := (k / 2)%nat in
+         let test := flat_map (fun h => map (fun s => Nat.min ((h + s - lo) + k) (n - 1)) (seq 0 (lo + hi))) err in
+         match nodup_nat test with
+         | [] => ((-2)%Z, [])
+         | t => ((-1)%Z, t)
+         end) /\
+  ((bs_mp_jj_start (Z.of_nat k) = - Z.of_nat ((k + 1) / 2))%Z /\ (bs_mp_jj_stop (Z.of_nat k) = Z.of_nat (k / 2))%Z) /\
+  ((1 <= n)%nat ->
+   Z.of_nat (Nat.min ((h + s - lo) + k) (n - 1)) =
+   bs_mp_inside (bs_mp_foo (Z.of_nat h) (Z.of_nat s - Z.of_nat lo)) (Z.of_nat k) (Z.of_nat n)).
+Proof.
+  exact (fun nbkpt k err h s lo n =>
+    conj (gen_maskpoints_head nbkpt k err) (conj (gen_maskpoints_jj k) (gen_maskpoints_clamp h s lo k n))).
+Qed.
+Print Assumptions C09_generated_maskpoints.
+
+Theorem C09_generated_cholesky_screen : forall bmask k diag mininf,
+  bs_chol_finite_whole_matrix = true /\
+  (forall d, bs_chol_negative d mininf = Qle_bool d mininf) /\
+  fit_status_model bmask k diag mininf =
+  (let nn := length (filter (fun b => b) (skipn k bmask)) in
+   if bs_fit_too_few nn k then ((-2)%Z, bmask)
+   else
+     let bad := filter (fun j => bs_chol_negative (nthQ diag j) mininf) (seq 0 (length diag)) in
+     match bad with
+     | [] => (0%Z, bmask)
+     | _ =>
+         let good := good_positions bmask 0 in
+         let '(st, targets) := maskpoints_model (length good) k bad in
+         (st, mask_positions good targets bmask)
+     end).
+Proof. exact gen_cholesky_screen. Qed.
+Print Assumptions C09_generated_cholesky_screen.
 
 (* non-vacuity: a concrete cubic fit is solved by the certified solver and recovers a quadratic exactly *)
 Example C09_example_recovery :
